@@ -1,0 +1,59 @@
+//go:build verif
+
+// Verification hooks for property C20 (build tag "verif"): thin exported
+// wrappers around the unexported pieces of the CCB requester, used by the
+// /verif correspondence harness so that the accept loop, the proxied hello
+// check and the single-attempt flows can be driven on scripted listeners and
+// connections.  Add-only; nothing here is compiled without the tag.
+package ccb
+
+import (
+	"context"
+	"net"
+
+	"github.com/bbockelm/cedar/addresses"
+	"github.com/bbockelm/cedar/stream"
+)
+
+// VerifAcceptReversed exposes acceptReversed.
+func VerifAcceptReversed(ctx context.Context, ln net.Listener, connectID string) (net.Conn, error) {
+	return acceptReversed(ctx, ln, connectID)
+}
+
+// VerifProxyRequestOnStream exposes proxyRequestOnStream.
+func VerifProxyRequestOnStream(ctx context.Context, brokerConn net.Conn, brokerStream *stream.Stream, ccbid, route, connectID, returnAddr, name string) (net.Conn, error) {
+	return proxyRequestOnStream(ctx, brokerConn, brokerStream, ccbid, route, connectID, returnAddr, name)
+}
+
+// VerifReadBrokerFailure exposes readBrokerFailure.
+func VerifReadBrokerFailure(ctx context.Context, s *stream.Stream) error {
+	return readBrokerFailure(ctx, s)
+}
+
+// VerifDialStandard exposes dialStandard (one standard-mode attempt with a
+// caller-chosen connect id).
+func VerifDialStandard(ctx context.Context, contact addresses.CCBContact, connectID string, opts DialOptions) (net.Conn, error) {
+	return dialStandard(ctx, contact, connectID, opts)
+}
+
+// VerifDialProxy exposes dialProxy (one proxied-mode attempt with a
+// caller-chosen connect id).
+func VerifDialProxy(ctx context.Context, contact addresses.CCBContact, connectID string, opts DialOptions) (net.Conn, error) {
+	return dialProxy(ctx, contact, connectID, opts)
+}
+
+// VerifDialOne exposes dialOne (mode dispatch + fresh connect id).
+func VerifDialOne(ctx context.Context, contact addresses.CCBContact, opts DialOptions) (net.Conn, error) {
+	return dialOne(ctx, contact, opts)
+}
+
+// VerifReadReverseConnectClaim reads one reverse-connect hello from s exactly
+// as acceptReversed does and returns the ClaimId string the requester compares
+// with its connect id.
+func VerifReadReverseConnectClaim(ctx context.Context, s *stream.Stream) (string, error) {
+	ad, err := readReverseConnect(ctx, s)
+	if err != nil {
+		return "", err
+	}
+	return AdString(ad, AttrClaimID), nil
+}
